@@ -191,6 +191,7 @@ def run(ctx):
 
     core.parallel(ctx, work, sts)
     random_trees(ctx, rng0, 400 if thorough else 60)
+    deep_trees(ctx, rng0)
     fixtures_roundtrip(ctx)
 
 
@@ -237,6 +238,34 @@ def random_trees(ctx, rng, n):
             ctx.traces_validated += 1
             if verdicts[r["tid"]][0] == "reject":
                 ctx.violation({"fail": "decoded-structure", "sub": "random-trees"}, {"file": {k: r[k] for k in ("parent", "inner", "tbl", "stale", "free", "hdr", "newerFirst")}, "decoded": r["decoded"][:20]})
+
+
+def deep_trees(ctx, rng):
+    """Trees of any depth: a single line of 70-150 nested nodes (over one or three key tables) with a leaf at the bottom, decoded
+    with as_dict() and by walking the children."""
+    for D in (70, 100, 150):
+        parent = [0] + list(range(1, D))
+        x = {"parent": parent, "inner": list(range(1, D)), "tbl": [rng.choice([1, 1, 2, 3]) for _ in range(D)], "stale": [], "free": [], "hdr": 1, "newerFirst": True}
+        nodes = make_nodes({**x, "parent": {i + 1: p for i, p in enumerate(parent)}, "tbl": {i + 1: t for i, t in enumerate(x["tbl"])}}, rng)
+        for nd in nodes:
+            nd["key"] = f"n{nd['id']}"
+        ctx.case(key=("deep", D), nontrivial=True)
+        try:
+            hf = decode_real(build_file(x, nodes, rng))
+            d, depth = hf.as_dict(), 0
+            while isinstance(d, dict) and len(d) == 1 and f"n{depth + 1}" in d:
+                depth += 1
+                d = d[f"n{depth}"]
+            e, walked = hf[f"n1"], 1
+            while e.children:
+                e = next(iter(e.children.values()))
+                walked += 1
+        except Exception as ex:  # noqa: BLE001
+            ctx.violation({"fail": "decode-raised", "sub": "deep-trees", "exc": type(ex).__name__}, {"depth": D, "error": repr(ex)[:300]})
+            continue
+        leaf = nodes[-1]
+        if depth != D or walked != D or not same(d, leaf["value"]):
+            ctx.violation({"fail": "tree-mismatch", "sub": "deep-trees"}, {"depth": D, "as_dict_depth": depth, "walked": walked, "bottom": short(d)})
 
 
 def fixtures_roundtrip(ctx):
